@@ -8,3 +8,13 @@ H("c13_logs", "C13", "seq", ["harness/c13_logs.cc", "harness/c13_sites4_0.cc", "
        "logs::Logger (24 Trace..Fatal wrappers, 4 Log overloads, 6 variadic Trace..Fatal with 6 argument shapes) at every level; the EventLogger - compared field by field with the "
        "emit-time values at every exporter (on the deferred exporter by value and by storage identity), fields never supplied compared with an untouched recordable",
   design_ref="5/C13")
+
+# "reaches every configured processor's exporter exactly once" on the REAL BatchLogRecordProcessor (the sequential harness above
+# uses a deferred stand-in so that what is exported is deterministic): the batch harness of C01 under the scheduler, log processor
+# only, its exactly-once / nothing-lost / per-producer-order predicates reported as C13:batch:*
+H("batch_c13", "C13", "sched", ["harness/batch_harness.cc"], sdk=["common", "version", "resource", "trace", "logs"],
+  args={"quick": ["--oracle=C01", "--as=C13", "--kind=1", "--set=light", "--k=2", "--budget=40"],
+        "thorough": ["--oracle=C01", "--as=C13", "--kind=1", "--set=light", "--k=2", "--t=0", "--c=0", "--budget=200"]},
+  what="real BatchLogRecordProcessor under the scheduler (the C01 batch harness, log processor only): every emitted record reaches the exporter exactly once, "
+       "none is lost while the queue has room, per-producer order; reported as C13:batch:*",
+  design_ref="5/C13, 12.8")
